@@ -337,6 +337,7 @@ func main() {
 		}
 		fb.Write(sec.buf.Bytes())
 		fb.WriteString(trailer)
+		os.MkdirAll(filepath.Dir(*out), 0o755)
 		if err := writeIfChanged(filepath.Join(filepath.Dir(*out), e.file), fb.Bytes()); err != nil {
 			fmt.Fprintln(os.Stderr, "factgen:", err) // never fatal for the other extractors
 		}
